@@ -208,6 +208,25 @@ class VInPlaceMul(_VFloatOp):
         return data
 
 
+class VCollBumpLast(DataOperation):
+    """Collection -> the same collection with only its LAST element changed (+1)."""
+
+    @classmethod
+    def input_data_type(cls):
+        return FloatDataCollection
+
+    @classmethod
+    def output_data_type(cls):
+        return FloatDataCollection
+
+    def _process_logic(self, data):
+        REC.add("VCollBumpLast", data, {})
+        items = [FloatDataType(x.data) for x in data]
+        if items:
+            items[-1] = FloatDataType(items[-1].data + 1.0)
+        return FloatDataCollection.from_list(items)
+
+
 class VPoly(_VFloatOp):
     """p * data + q + r + s  (three required parameters and one default: a swept element with several un-swept ones)."""
 
@@ -367,6 +386,20 @@ class VCtxRandom(ContextProcessor):
 
         REC.add("VCtxRandom", None, {})
         self._notify_context_update("rand_draw", [random.random(), float(np.random.random())])
+
+
+class VCtxBumpLast(ContextProcessor):
+    """Rewrites the (long) list under ``long_seq`` with only its LAST element changed (+1)."""
+
+    @classmethod
+    def get_created_keys(cls) -> List[str]:
+        return ["long_seq"]
+
+    def _process_logic(self, long_seq):
+        REC.add("VCtxBumpLast", None, {"n": len(long_seq)})
+        out = list(long_seq)
+        out[-1] = out[-1] + 1.0
+        self._notify_context_update("long_seq", out)
 
 
 class VHookedCtx(ContextProcessor):
